@@ -32,8 +32,8 @@ const (
 )
 
 var (
-	flagNames = [5]string{"S256", "Post", "PKJWT", "Refresh", "ReqObj"}
-	epVarName = [nEpVar]string{"defaults", "custom-relative", "absolute-url", "special"} // special: nil members (legacy) / WithCustomEndpoints multi-setter (provider)
+	flagNames  = [5]string{"S256", "Post", "PKJWT", "Refresh", "ReqObj"}
+	epVarName  = [nEpVar]string{"defaults", "custom-relative", "absolute-url", "special"} // special: nil members (legacy) / WithCustomEndpoints multi-setter (provider)
 	issVarName = [nIssVar]string{"static", "static-path", "host", "host-path", "forwarded", "forwarded-custom"}
 )
 
